@@ -31,9 +31,8 @@
 // Nothing in the verdict depends on wall-clock time: -budget only decides how many histories are
 // produced (a slow machine yields fewer histories, never a failure), and a linearizability check that
 // does not finish in its time slice is counted as inconclusive, not as a failure.  A deadlock (a
-// method calling another locking method of the same cache under the mutex) blocks every goroutine,
-// which the Go runtime reports itself ("all goroutines are asleep"); no timer is pending while
-// histories are produced, so that report is not masked.
+// method calling another locking method of the same cache under the mutex) is recognised by the
+// states of the goroutines, not by a time-out (see watchdog).
 //
 // It is meant to be built with -race; data races are reported by the runtime on stderr and turned
 // into failures by the runner script.  Output: CUR <cfg> before each history, FAIL input=<cfg>
@@ -236,10 +235,77 @@ func (w *world) do(g int, in input, cur *[]kv) (r rec) {
 		cc.Clear()
 	}
 	r.ret = atomic.AddInt64(&w.clock, 1)
+	atomic.AddInt64(&progress, 1)
 	w.hmu.Lock()
 	r.out.ev = append([]kv(nil), (*cur)...)
 	w.hmu.Unlock()
 	return r
+}
+
+// ---- deadlock detection
+//
+// A method that calls another locking method of the same cache while it holds the mutex blocks for
+// ever, and with it every other caller.  The Go runtime reports "all goroutines are asleep" only in
+// programs without cgo, and the race detector brings cgo in; so the harness applies the runtime's
+// criterion itself: once a second, if no call has completed since the last look, it takes a
+// stop-the-world dump of all goroutines and looks at their states.  If every goroutine other than
+// the watchdog waits on a mutex, a channel or a WaitGroup - none running, runnable, sleeping, in a
+// select with a timer or in a system call - nothing can ever wake any of them: that is a deadlock,
+// whatever the speed of the machine.  Three such looks in a row end the process with a FAIL line.
+
+var progress int64      // completed calls
+var curCfg atomic.Value // the configuration being run (string)
+
+var blockedStates = map[string]bool{
+	"semacquire": true, "sync.Mutex.Lock": true, "sync.RWMutex.Lock": true, "sync.RWMutex.RLock": true,
+	"chan receive": true, "chan send": true, "sync.WaitGroup.Wait": true, "sync.Cond.Wait": true,
+}
+
+func allBlocked(dump string) bool {
+	n, self := 0, 0
+	for _, l := range strings.Split(dump, "\n") {
+		if !strings.HasPrefix(l, "goroutine ") || !strings.HasSuffix(l, "]:") {
+			continue
+		}
+		i := strings.IndexByte(l, '[')
+		st := l[i+1 : len(l)-2]
+		if j := strings.IndexByte(st, ','); j >= 0 {
+			st = st[:j]
+		}
+		n++
+		if st == "running" {
+			self++ // the goroutine that takes the dump
+			continue
+		}
+		if !blockedStates[st] {
+			return false
+		}
+	}
+	return n >= 2 && self == 1
+}
+
+func watchdog() {
+	last, strikes := int64(-1), 0
+	buf := make([]byte, 1<<20)
+	for {
+		time.Sleep(time.Second)
+		p := atomic.LoadInt64(&progress)
+		if p != last {
+			last, strikes = p, 0
+			continue
+		}
+		if allBlocked(string(buf[:runtime.Stack(buf, true)])) {
+			strikes++
+		} else {
+			strikes = 0
+		}
+		if strikes >= 3 {
+			cfg, _ := curCfg.Load().(string)
+			fmt.Printf("FAIL input=%s reason=deadlock\n", cfg)
+			fmt.Printf("STATS mode=-1 runs=0 ops=0 fails=1 nonlinearizable=0 inconclusive=0 nonLRUVictims=0 overlaps=0 procs=%d wall=0 contended=-\n", runtime.GOMAXPROCS(0))
+			os.Exit(1)
+		}
+	}
 }
 
 // fresh returns a value that no other Put of this history uses, with the wanted size residue.
@@ -667,6 +733,7 @@ func check(c config, hist []rec, global []kv, slice time.Duration) (reasons []st
 		for j := i + 1; j < len(hist); j++ {
 			if hist[i].g != hist[j].g && hist[i].call < hist[j].ret && hist[j].call < hist[i].ret {
 				overlaps++
+				tagOverlap(hist[i].in, hist[j].in)
 			}
 		}
 	}
@@ -700,6 +767,115 @@ func check(c config, hist []rec, global []kv, slice time.Duration) (reasons []st
 		inconclusive = true
 	}
 	return dedup(reasons), overlaps, inconclusive
+}
+
+// linearLine returns one linearization of a (linearizable) history, as porcupine finds it, in the
+// text form read by bin/incoq-cacheconc:  "<limit> <sizeMd> | call;call;..." with
+// p<k>:<v>=<ok>/<ev>  g<k>=<ok>:<val>  h<k>=<ok>  r<k>=<ok>/<ev>  l=<n>  s=<n>  c=/<ev>,  <ev> = k:v,k:v or "."
+func linearLine(c config, hist []rec) string {
+	var ops []porcupine.Operation
+	for _, r := range hist {
+		if r.panicked != "" {
+			return ""
+		}
+		ops = append(ops, porcupine.Operation{ClientId: r.g, Input: r.in, Call: r.call, Output: r.out, Return: r.ret})
+	}
+	res, info := porcupine.CheckOperationsVerbose(model(c), ops, 5*time.Second)
+	if res != porcupine.Ok {
+		return ""
+	}
+	parts := info.PartialLinearizationsOperations()
+	if len(parts) != 1 || len(parts[0]) == 0 {
+		return ""
+	}
+	lin := parts[0][0]
+	for _, l := range parts[0] {
+		if len(l) > len(lin) {
+			lin = l
+		}
+	}
+	if len(lin) != len(ops) {
+		return ""
+	}
+	b01 := func(b bool) string {
+		if b {
+			return "1"
+		}
+		return "0"
+	}
+	evs := func(ev []kv) string {
+		if len(ev) == 0 {
+			return "."
+		}
+		var xs []string
+		for _, e := range ev {
+			xs = append(xs, fmt.Sprintf("%d:%d", e.k, e.v))
+		}
+		return strings.Join(xs, ",")
+	}
+	var calls []string
+	for _, o := range lin {
+		in, out := o.Input.(input), o.Output.(output)
+		switch in.kind {
+		case 'p':
+			calls = append(calls, fmt.Sprintf("p%d:%d=%s/%s", in.key, in.val, b01(out.ok), evs(out.ev)))
+		case 'g':
+			calls = append(calls, fmt.Sprintf("g%d=%s:%d", in.key, b01(out.ok), out.val))
+		case 'h':
+			calls = append(calls, fmt.Sprintf("h%d=%s", in.key, b01(out.ok)))
+		case 'r':
+			calls = append(calls, fmt.Sprintf("r%d=%s/%s", in.key, b01(out.ok), evs(out.ev)))
+		case 'l':
+			calls = append(calls, fmt.Sprintf("l=%d", out.n))
+		case 's':
+			calls = append(calls, fmt.Sprintf("s=%d", out.n))
+		case 'c':
+			calls = append(calls, fmt.Sprintf("c=/%s", evs(out.ev)))
+		}
+	}
+	return fmt.Sprintf("%d %d | %s", c.limit, c.sizeMd, strings.Join(calls, ";"))
+}
+
+func modeOf(fixed *config, m int) int {
+	if fixed != nil {
+		return fixed.mode
+	}
+	return m
+}
+
+// contended counts the overlapping pairs of calls that conflict: two calls on the SAME key
+// (rr = Remove/Remove, pr = Put/Remove, gg = Get/Get, pp = Put/Put, gp, gr, ...) and calls
+// overlapping a Clear (cr, cp, cg).  These are the states the property text names.
+var contended = map[string]int{}
+
+func tagOverlap(a, b input) {
+	x, y := a.kind, b.kind
+	if x > y {
+		x, y = y, x
+	}
+	keyed := func(k byte) bool { return k == 'p' || k == 'g' || k == 'r' || k == 'h' }
+	switch {
+	case keyed(x) && keyed(y) && a.key == b.key:
+		contended[string([]byte{x, y})]++
+	case x == 'c' && keyed(y):
+		contended[string([]byte{x, y})]++
+	}
+}
+
+func tagString() string {
+	var ks []string
+	for k := range contended {
+		ks = append(ks, k)
+	}
+	sort.Strings(ks)
+	var xs []string
+	for _, k := range ks {
+		xs = append(xs, fmt.Sprintf("%s:%d", k, contended[k]))
+	}
+	if len(xs) == 0 {
+		return "-"
+	}
+	return strings.Join(xs, ",")
 }
 
 func firstWords(s string) string {
@@ -815,6 +991,9 @@ func main() {
 	replay := flag.String("replay", "", "configuration to re-run")
 	verbose := flag.Bool("v", false, "dump failing histories")
 	quiet := flag.Bool("q", false, "no CUR lines")
+	emit := flag.String("emitlin", "", "append linearizations of sampled histories to this file (for bin/incoq-cacheconc)")
+	emitN := flag.Int("emitn", 100, "number of linearizations to emit")
+	emitEvery := flag.Int("emitevery", 7, "sample every n-th history")
 	st := flag.Bool("selftest", false, "check the checker")
 	flag.Parse()
 	if *st {
@@ -871,14 +1050,16 @@ func main() {
 		}
 		return c
 	}
+	go watchdog()
 	t0 := time.Now()
-	done, fails, totalOps, overlaps, nonlin, inconcl := 0, 0, 0, 0, 0, 0
+	done, fails, totalOps, overlaps, nonlin, inconcl, emitted := 0, 0, 0, 0, 0, 0, 0
 	failed := map[string]bool{}
 	for i := 0; i < *runs; i++ {
 		if i >= *minRuns && *budget > 0 && time.Since(t0).Seconds() > *budget {
 			break
 		}
 		c := next(i)
+		curCfg.Store(c.String())
 		if !*quiet {
 			fmt.Printf("CUR %s\n", c)
 		}
@@ -890,6 +1071,15 @@ func main() {
 		overlaps += ov
 		if inc {
 			inconcl++
+		}
+		if *emit != "" && emitted < *emitN && len(reasons) == 0 && !inc && i%*emitEvery == 0 {
+			if l := linearLine(c, hist); l != "" {
+				if f, err := os.OpenFile(*emit, os.O_APPEND|os.O_CREATE|os.O_WRONLY, 0o644); err == nil {
+					fmt.Fprintln(f, l)
+					f.Close()
+					emitted++
+				}
+			}
 		}
 		for _, why := range reasons {
 			fails++
@@ -909,8 +1099,8 @@ func main() {
 			dump(hist)
 		}
 	}
-	fmt.Printf("STATS mode=%d runs=%d ops=%d fails=%d nonlinearizable=%d inconclusive=%d nonLRUVictims=%d overlaps=%d procs=%d wall=%.1f\n",
-		*mode, done, totalOps, fails, nonlin, inconcl, atomic.LoadInt64(&nonLRU), overlaps, runtime.GOMAXPROCS(0), time.Since(t0).Seconds())
+	fmt.Printf("STATS mode=%d runs=%d ops=%d fails=%d nonlinearizable=%d inconclusive=%d nonLRUVictims=%d overlaps=%d procs=%d wall=%.1f contended=%s\n",
+		modeOf(fixed, *mode), done, totalOps, fails, nonlin, inconcl, atomic.LoadInt64(&nonLRU), overlaps, runtime.GOMAXPROCS(0), time.Since(t0).Seconds(), tagString())
 	if fails > 0 {
 		os.Exit(1)
 	}
